@@ -216,6 +216,8 @@ class Terms(object):
         """Two definitions merging at `node` that are separated by one `if`: the value is a conditional term
         (`if c: x = a` after `x = b`, or `if c: x = a else: x = b`) instead of an unordered phi."""
         g = self.ctx.cfg(func)
+        if depth > self.max_depth + 4:
+            return None          # (a test that reads the variable being resolved, around a loop)
         for a, b in ((ds[0], ds[1]), (ds[1], ds[0])):
             if a.node is g.entry:
                 continue
@@ -242,7 +244,7 @@ class Terms(object):
                     tb = self._def_term(func, b, name, env, depth, node)
                     if ta == tb:
                         return ta
-                    cond = self.cond_key(func, tn, tn.ast.test, env, depth)
+                    cond = self.cond_key(func, tn, tn.ast.test, env, depth + 1)
                     return ("ite", cond, ta, tb) if lab == "true" else ("ite", cond, tb, ta)
         return None
 
